@@ -33,7 +33,7 @@ META = {
                 text='Panic-freedom and termination are obligations of every exec function Verus verifies (unwrap, unreachable!, indexing, str slicing, integer overflow are failed preconditions): operator evaluation, both evaluators and all wrappers, the tree builder (stack-shape invariant discharges both unreachable!()s), both tokenizer stages, the contexts, the explicit builtins, NodeIter. i64 leaves and macro-generated builtins by loop-free Kani harnesses over all payloads. Unbounded for the functions under contract.',
                 note=_TB + ' Not decided: Display/Debug formatting, stack depth, the identifier-filter closures, OperatorIterMut, IterateVariablesContext impls.'),
     'C02': dict(engine='verus', design_ref='0, 4', technique='contract-based deductive verification (Verus): table contracts, insertion contract ins_ok/ins_post, token-mapping obligation, yield lemma, token conservation',
-                text='Precedence/arity/associativity and token-class tables proved equal to the documented table; insert_back_prioritized proved to place each node exactly where precedence climbing puts it (free slot / rotation / descent by binds_into); the node created for each token proved to be op_of(token, previous-token-can-end-an-operand, next token); spec-level theorem: a successful insertion extends the in-order yield on the right; token conservation: the tree accounts for every token other than a parenthesis exactly once (w_node(tree) == ntok(tokens)).',
+                text='Precedence/arity/associativity and token-class tables proved equal to the documented table; insert_back_prioritized proved to place each node exactly where precedence climbing puts it (free slot / rotation / descent by binds_into); the node created for each token proved to be op_of(token, previous-token-can-end-an-operand, next token); spec-level theorem: a successful insertion extends the in-order yield on the right; token conservation: the tree accounts for every token other than a parenthesis exactly once (w_node(tree) == ntok(tokens)); each builder step pinned by ins_step (the node goes into the element being parsed, nothing else moves).',
                 note=_TB + ' The whole-grammar uniqueness theorem (one tree per token sequence) is not mechanised; the per-step contracts are.'),
     'C03': dict(engine='verus+kani', design_ref='0, 3.4', technique='contract-based deductive verification (Verus postcondition = reference semantics op_spec; Kani proves the integer contracts for i64)',
                 text='Operator::eval proved to return exactly op_spec (written from the property text; one ensures clause per operator) for every argument list; the integer contracts assumed on the abstract instance are proved for i64 by Kani over all 2^128 operand pairs.',
@@ -42,7 +42,7 @@ META = {
                 text='Every HashMapContext operation proved to refine an abstract map view with whole-view postconditions (set_spec: type-safe insert or unchanged); eval_mut proved against opmut_spec (x op= e is x = x op e, read after the right-hand side); both evaluators thread the map.',
                 note=_TB + ' HashMap get/insert/get_mut/clear specs assumed; derive(Clone) independence (ownership) not in reach; of iter_variables the per-binding mapping is proved (X21), the hash-map iteration is std.'),
     'C05': dict(engine='verus', design_ref='0, 4', technique='contract-based deductive verification (Verus): evaluation arms + level-grammar stack invariant + token conservation',
-                text='Tuple/Chain/RootNode arms proved against op_spec; the evaluators evaluate every element in order; the stack of open nodes is proved to follow the level grammar Root (Chain)? (Tuple)? with the last child of an open sequence being the root of the element being parsed, an open sequence holding at least two elements, and (token conservation, through the builder loop and both collapse functions) every separator standing for exactly one more element of its sequence: w_node(tree) == number of non-parenthesis tokens.',
+                text='Tuple/Chain/RootNode arms proved against op_spec; the evaluators evaluate every element in order; the stack of open nodes is proved to follow the level grammar Root (Chain)? (Tuple)? with the last child of an open sequence being the root of the element being parsed, an open sequence holding at least two elements, and (token conservation, through the builder loop and both collapse functions) every separator standing for exactly one more element of its sequence: w_node(tree) == number of non-parenthesis tokens; each separator step pinned by the relation seq_step (which sequence gets the new element, where a finished tuple goes, element order included).',
                 note=_TB + ' The closed-form shape theorem (flat tuple of all elements for every input) is not mechanised.'),
     'C06': dict(engine='verus+kani', design_ref='0, 4', technique='contract-based deductive verification (Verus, unbounded): lexer stages against lex2 / split / str_lit; Kani bounded stand-in (strings of <= 2 ASCII bytes) for the radix-16 parser of the default integer type',
                 text='partial_tokens_to_tokens proved equal to the documented lexical rule lex2 for all inputs (int, float, bool, scientific join, identifier; longest match); parse_string_literal/parse_escape_sequence proved against str_lit; parse_dec_or_hex proved to choose hex after 0x; tokenize = lex2 after split. Bounded (labelled, not counted as proved): i64::from_hex_str parses radix 16 for every ASCII string of length 1 or 2.',
